@@ -839,3 +839,105 @@ Proof.
   - reflexivity.
   - apply crfree_no_bare_cr. apply rstrip_crfree. apply universal_crfree.
 Qed.
+
+(* ---------------------------------------------------------------------------------------------
+   placement into the module (gencode._make_formula_field) *)
+
+Lemma split_phys_app_nl : forall a b, no_bare_cr a = true ->
+  split_phys (a ++ NL :: b) =
+  (fst (split_phys a), snd (split_phys a) ++ (let (l, ls) := split_phys b in l :: ls)).
+Proof.
+  induction a as [|c r IH]; intros b H.
+  - cbn [app split_phys]. destruct (split_phys b) as [l ls]. reflexivity.
+  - cbn [no_bare_cr] in H. apply andb_true_iff in H. destruct H as [Hc Hr].
+    cbn [app split_phys]. rewrite (IH b Hr).
+    destruct (split_phys r) as [l0 ls0] eqn:E0. cbn [fst snd].
+    destruct (split_phys b) as [lb lsb].
+    destruct (c =? NL); [reflexivity|].
+    destruct (c =? CR); [|reflexivity].
+    destruct r as [|d r']; [discriminate|]. cbn [app]. rewrite Hc. reflexivity.
+Qed.
+
+Lemma phys_lines_app_nl : forall a b, no_bare_cr a = true ->
+  phys_lines (a ++ NL :: b) = phys_lines a ++ phys_lines b.
+Proof.
+  intros a b H. unfold phys_lines. rewrite split_phys_app_nl by exact H.
+  destruct (split_phys a) as [l ls]. destruct (split_phys b) as [m ms]. reflexivity.
+Qed.
+
+Lemma phys_lines_one : forall l, Forall no_le l -> phys_lines l = [l].
+Proof.
+  intros l H. rewrite phys_lines_no_bare_cr by (apply crfree_no_bare_cr; apply no_le_crfree; exact H).
+  unfold lines_nl. rewrite split_nl_nlfree_id by (apply no_le_nlfree; exact H). cbn [map].
+  rewrite strip_cr_crfree by (apply no_le_crfree; exact H). reflexivity.
+Qed.
+
+Definition field_header (indent name params : text) : text :=
+  indent ++ s_def ++ name ++ [40] ++ params ++ [41; 58].
+
+Lemma field_lines : forall indent name params body,
+  Forall no_le indent -> Forall no_le name -> Forall no_le params -> no_bare_cr body = true ->
+  phys_lines (formula_field indent name params body)
+  = [] :: field_header indent name params :: phys_lines body ++ [[]].
+Proof.
+  intros indent name params body Hi Hn Hp Hb.
+  assert (Hh : Forall no_le (field_header indent name params)).
+  { unfold field_header. repeat (apply Forall_app; split); try assumption; apply const_no_le; reflexivity. }
+  unfold formula_field.
+  replace ([NL] ++ indent ++ s_def ++ name ++ [40] ++ params ++ [41; 58; NL] ++ body ++ [NL])
+    with ([] ++ NL :: (field_header indent name params ++ NL :: (body ++ NL :: []))).
+  2:{ unfold field_header. cbn [app]. repeat (rewrite <- app_assoc; cbn [app]). reflexivity. }
+  rewrite phys_lines_app_nl by reflexivity.
+  rewrite phys_lines_app_nl by (apply crfree_no_bare_cr; apply no_le_crfree; exact Hh).
+  rewrite phys_lines_app_nl by exact Hb.
+  rewrite (phys_lines_one (field_header indent name params)) by exact Hh. reflexivity.
+Qed.
+
+Lemma indent_re_nbc : forall ind t, nlfree ind -> crfree ind -> no_bare_cr t = true ->
+  no_bare_cr (indent_re ind t) = true.
+Proof.
+  intros ind t Hn Hc H. unfold indent_re.
+  pose proof (join_lines_nl t) as J. unfold lines_nl in *. destruct (split_nl t) as [l ls].
+  cbn [map join_nl] in *. rewrite nbc_join. rewrite nbc_lines_map.
+  - rewrite <- nbc_join. rewrite J. exact H.
+  - intros x. unfold indent_line. destruct (has_nonspace x); [apply good_crfree_app; exact Hc|reflexivity].
+  - intros x. unfold indent_line. destruct (has_nonspace x); [apply no_bare_cr_crfree_app; exact Hc|reflexivity].
+Qed.
+
+Lemma stub_with_nbc : forall (cm : text -> text) (src : text -> text) p name msg line col1 ltext t,
+  (forall t, cm t = join_nl (map (fun l => HASH :: SP :: l) (lines_nl (src t)))) ->
+  Forall no_le name -> no_bare_cr (src t) = true ->
+  no_bare_cr (stub_with cm p name msg line col1 ltext t) = true.
+Proof.
+  intros cm src p name msg line col1 ltext t Hcm Hname Hs.
+  pose proof (raise_stmt_no_le p name msg line col1 ltext Hname) as Hrs.
+  unfold stub_with. rewrite Hcm. cbn [app]. rewrite no_bare_cr_app_nl.
+  rewrite (crfree_no_bare_cr (raise_stmt p name msg line col1 ltext)) by (apply no_le_crfree; exact Hrs).
+  rewrite andb_true_r. apply no_bare_cr_good.
+  destruct (lines_nl (src t)) as [|l0 ls0] eqn:E0.
+  { unfold lines_nl in E0. destruct (split_nl (src t)); discriminate. }
+  cbn [map join_nl]. rewrite nbc_join.
+  rewrite (nbc_lines_map (fun l => HASH :: SP :: l)).
+  - rewrite <- nbc_join. pose proof (join_lines_nl (src t)) as J. rewrite E0 in J. cbn [join_nl] in J.
+    rewrite J. exact Hs.
+  - intros x. apply (good_crfree_app [HASH; SP] x). intros [E|[E|[]]]; discriminate.
+  - intros x. apply (no_bare_cr_crfree_app [HASH; SP] x). intros [E|[E|[]]]; discriminate.
+Qed.
+
+Lemma stub_body_nbc : forall ind p name msg line col1 ltext t,
+  nlfree ind -> crfree ind -> Forall no_le name -> no_bare_cr (rstrip t) = true ->
+  no_bare_cr (indent_re ind (stub_code p name msg line col1 ltext t)) = true.
+Proof.
+  intros. apply indent_re_nbc; try assumption. unfold stub_code.
+  apply (stub_with_nbc comment_re rstrip); try assumption. reflexivity.
+Qed.
+
+Lemma stub_body_nbc_fixed : forall ind p name msg line col1 ltext t,
+  nlfree ind -> crfree ind -> Forall no_le name ->
+  no_bare_cr (indent_re ind (stub_fixed p name msg line col1 ltext t)) = true.
+Proof.
+  intros. apply indent_re_nbc; try assumption. unfold stub_fixed.
+  apply (stub_with_nbc comment_fixed (fun t => rstrip (universal_newlines t))); try assumption.
+  - reflexivity.
+  - apply crfree_no_bare_cr. apply rstrip_crfree. apply universal_crfree.
+Qed.
